@@ -53,8 +53,12 @@ class FakeFile(object):
 
     # reading
     def __iter__(self):
-        c = self._content()
-        return iter(io.BytesIO(c) if self.binary else io.StringIO(c))
+        # from the current position, like a real file object (a seek() before the loop matters)
+        while True:
+            line = self.readline()
+            if not line:
+                return
+            yield line
 
     def _content(self):
         c = self.fs.files[self.name]
